@@ -706,14 +706,14 @@ func init() {
 				for _, fault := range []string{"crash", "fail"} {
 					sizes := []int{5}
 					if tier == "thorough" {
-						sizes = []int{5, 600}
+						sizes = []int{5, 300, 600, 1200}
 					} else if op == "commit-new" || op == "merge-real" {
 						sizes = []int{5, 600}
 					}
 					for _, rows := range sizes {
 						workers := []int{1}
 						if tier == "thorough" {
-							workers = []int{1, 4}
+							workers = []int{1, 4, 8}
 						}
 						for _, w := range workers {
 							l.Add("cli", c13Params{Driver: "cli", Op: op, Rows: rows, Fault: fault, Workers: w}, 0)
@@ -721,7 +721,7 @@ func init() {
 					}
 				}
 			}
-			reps := l.N(1, 6)
+			reps := l.N(1, 24)
 			for r := 0; r < reps; r++ {
 				for _, fault := range []string{"crash", "fail"} {
 					for _, rows := range []int{5, 600} {
